@@ -121,33 +121,79 @@ def check_position(ctx, inst="C04.position"):
                 ctx.check(v.k == "field" and v.extra[1] == f and any(c.nid in dec for c in v.calls()) and not any(x.k == "bin" for x in v.walk()), inst, "PROVENANCE", b.path,
                           "journal_%s is restored exactly as decoded (it names the slot / generation of the newest record; next_journal_position adds the step)" % f, b.where(n), {"value": v.show()[:80]})
     allowed = ["DiskIO::read_allocation_journal", "DiskIO::write_allocation_journal", "DiskIO::clear_allocation_journal"]
+    writers = allowed[1:]
+
+    def commit_helper(bb):
+        """a non-public helper that holds the write + flush + position stores on behalf of the write / clear routines only
+        (`commit_journal_image(generation, slot, image)`): every caller is one of the two routines"""
+        o = R.owner_fn(ctx.prog, bb)
+        if any(path_matches(o, a) for a in allowed):
+            return False
+        ob = ctx.prog.bodies.get(o)
+        if ob is None or ob.is_test or ob.is_closure or not (st_gen(ob) and st_slot(ob)):
+            return False
+        return R._private_helper_of(ctx.prog, o, writers, 0)
+
     n_w = 0
+    helpers = set()
     for bb in ctx.prog.product_bodies():
         for sel in (st_gen, st_slot):
             for n in sel(bb):
                 n_w += 1
                 o = R.owner_fn(ctx.prog, bb)
-                ctx.check(any(path_matches(o, a) for a in allowed), inst, "CALLERS", o, "the journal position is written only by the journal read / write / clear routines", bb.where(n))
-    ctx.check(n_w == 6, inst, "anchor", "-", "journal position stores (expected 6, found %d)" % n_w, None)
+                ok = any(path_matches(o, a) for a in allowed)
+                if not ok and commit_helper(bb):
+                    ok = True
+                    helpers.add(o)
+                ctx.check(ok, inst, "CALLERS", o, "the journal position is written only by the journal read / write / clear routines", bb.where(n))
+    ctx.check(n_w == (6 if not helpers else 2 + 2 * len(helpers)), inst, "anchor", "-", "journal position stores (expected 6, or 4 with one shared commit helper; found %d)" % n_w, None)
     for fn in ("DiskIO::write_allocation_journal", "DiskIO::clear_allocation_journal"):
         b = ctx.fn(fn, inst)
         if b is None:
             continue
         nx = ctx.sites(b, R.call("DiskIO::next_journal_position"), inst, exact=1)
-        ws = ctx.sites(b, R.call("DiskIO::write_sectors_sync"), inst, exact=1)
-        fl = ctx.sites(b, R.call("DiskIO::flush"), inst, exact=1)
-        g = ctx.sites(b, st_gen, inst, exact=1)
-        sl = ctx.sites(b, st_slot, inst, exact=1)
-        R.dom(ctx, inst, b, fl, g + sl, "the in-memory position advances only after the record was written and flushed", a_desc="flush")
-        R.guard(ctx, inst, b, g + sl, R.guard_edges_for_call(b, fl, "Ok"), "and only on the Ok edge of the flush")
-        R.guard(ctx, inst, b, g + sl, R.guard_edges_for_call(b, ws, "Ok"), "and of the write")
+        cb, hcall = b, None
+        if not st_gen(b) and helpers:
+            hc = [n.id for n in b.calls() if any(R.call_matches(n.ev, h) for h in helpers)]
+            ctx.check(len(hc) == 1, inst, "anchor", b.path, "one call to the commit helper (found %d)" % len(hc), None)
+            if len(hc) != 1:
+                continue
+            hcall = hc[0]
+            cb = ctx.prog.bodies[next(h for h in helpers if R.call_matches(b.nodes[hcall].ev, h))]
+            # nothing of b's own may fail or write after the helper returned: its result is b's result
+            R.dom(ctx, inst, b, [hcall], A.ok_nodes(b), "the routine succeeds only through the commit helper", a_desc="commit helper")
+        ws = ctx.sites(cb, R.call("DiskIO::write_sectors_sync"), inst, exact=1)
+        fl = ctx.sites(cb, R.call("DiskIO::flush"), inst, exact=1)
+        g = ctx.sites(cb, st_gen, inst, exact=1)
+        sl = ctx.sites(cb, st_slot, inst, exact=1)
+        R.dom(ctx, inst, cb, fl, g + sl, "the in-memory position advances only after the record was written and flushed", a_desc="flush")
+        R.guard(ctx, inst, cb, g + sl, R.guard_edges_for_call(cb, fl, "Ok"), "and only on the Ok edge of the flush")
+        R.guard(ctx, inst, cb, g + sl, R.guard_edges_for_call(cb, ws, "Ok"), "and of the write")
+
+        def from_next(v):
+            """the value is a component of what next_journal_position computed: directly, or - through the helper - the helper's
+            own parameter, whose argument at the call site is"""
+            if cb is b:
+                return any(c.nid in nx for c in v.calls())
+            if v.k != "arg":
+                return False
+            a = R.arg_expr(b, b.nodes[hcall], v.extra[0] - 1)
+            return any(c.nid in nx for c in a.calls())
         for n in g + sl:
-            v = R.arg_expr(b, b.nodes[n], 1)
-            ctx.check(any(c.nid in nx for c in v.calls()), inst, "PROVENANCE", b.path, "the position stored is the one next_journal_position computed", b.where(n))
+            v = R.arg_expr(cb, cb.nodes[n], 1)
+            ctx.check(from_next(v), inst, "PROVENANCE", cb.path, "the position stored is the one next_journal_position computed", cb.where(n))
         for w in ws:
-            v = R.arg_expr(b, b.nodes[w], 1)
-            ctx.check(v.has_call("DiskIO::journal_sector") and any(c.nid in nx for c in v.calls()), inst, "PROVENANCE", b.path,
-                      "the record is written to the sector of the slot next_journal_position chose", b.where(w))
+            v = R.arg_expr(cb, cb.nodes[w], 1)
+            slot_ok = v.has_call("DiskIO::journal_sector") and (any(c.nid in nx for c in v.calls()) if cb is b else
+                                                                any(from_next(x) for x in v.walk() if x.k == "arg" and x.extra[0] != 1))
+            ctx.check(slot_ok, inst, "PROVENANCE", cb.path, "the record is written to the sector of the slot next_journal_position chose", cb.where(w))
+        if cb is not b:
+            # generation and slot must not be swapped on the way into the helper: the slot stored is the slot written to
+            for n in sl:
+                v = R.arg_expr(cb, cb.nodes[n], 1)
+                wv = R.arg_expr(cb, cb.nodes[ws[0]], 1) if ws else None
+                ctx.check(wv is not None and v.k == "arg" and any(x.k == "arg" and x.extra[0] == v.extra[0] for x in wv.walk()), inst, "PROVENANCE", cb.path,
+                          "the slot published is the slot the record was written to", cb.where(n))
     b = ctx.fn("DiskIO::next_journal_position", inst)
     if b is not None:
         tr = A.tracer(b)
